@@ -428,6 +428,8 @@ class dictable(Dict):
             elif is_ints(item):
                 values = list(zip(*self.values()))
                 return type(self)(data = [values[i] for i in item], columns = self.keys())
+            elif all(i in self.keys() for i in item): ## a list of existing column keys is a projection, whether or not the keys are strings
+                return type(self)(super(dictable, self).__getitem__(item))
             else:
                 raise ValueError('We dont know how to understand this item %s'%item)
         elif is_int(item):
